@@ -325,6 +325,16 @@ func genStr() string {
 	default:
 		n = r.Intn(8)
 	}
+	switch r.Intn(150) {
+	case 0, 1, 2:
+		// member sizes 127/128/129…: the varint length prefix inside containers grows to two
+		// bytes (packValue moves the packed member to make room)
+		n = []int{125, 126, 127, 128, 129, 200, 300}[r.Intn(7)]
+		t.Count("str:len~128")
+	case 3:
+		n = []int{16382, 16383, 16384, 17000}[r.Intn(4)] // three byte varint
+		t.Count("str:len~16384")
+	}
 	b := make([]byte, n)
 	for i := range b {
 		switch r.Intn(4) {
@@ -647,6 +657,18 @@ func checkScalar(x sval) (p string, ok bool) {
 	if size != len(p) {
 		fail("packsize-"+x.kind, fmt.Sprintf("PackSize(%v)=%d but len(Pack)=%d", x.v, size, len(p)))
 	}
+	if e := lib.Catch(func() {
+		if PackedOrd(p) != Order(x.v) {
+			fail("packedord-"+x.kind, fmt.Sprintf("PackedOrd(Pack(%v)) = %d but Order = %d", x.v, PackedOrd(p), Order(x.v)))
+		}
+	}); e != "" {
+		fail("packedord-panic", fmt.Sprintf("PackedOrd(Pack(%v)): %s", x.v, e))
+	}
+	if b, ok := x.v.(SuBool); ok {
+		if PackBool(bool(b)) != p || UnpackBool(p) != x.v {
+			fail("packbool", fmt.Sprintf("PackBool/UnpackBool disagree with Pack for %v", x.v))
+		}
+	}
 	switch x.kind {
 	case "smi", "int64", "dnum":
 		t.Q(x.op, fmt.Sprintf("%s %d", lib.X(p), size))
@@ -768,6 +790,15 @@ func genContainer(depth int) Value {
 	}
 	if r.Intn(40) == 0 {
 		nl = 130 // two byte varint count
+	}
+	if r.Intn(12) == 0 {
+		// a lazy sequence over a list: packs by instantiating
+		ob := &SuObject{}
+		for i := 0; i < nl; i++ {
+			ob.Add(genValue(depth))
+		}
+		t.Count("repr:sequence")
+		return NewSuSequence(ob.Iter())
 	}
 	if r.Intn(2) == 0 {
 		ob := &SuObject{}
@@ -1074,6 +1105,24 @@ func main() {
 	for _, pr := range [][2]string{{"-1.5", "-1.55"}, {"-1", "-1.01"}, {"-2", "-1.55"}, {"1.5", "1.55"},
 		{"-15", "-15.5"}, {"-1e-5", "-1.0001e-5"}, {"-100", "-100.01"}} {
 		checkPair(dnumVal(dnum.FromStr(pr[0])), dnumVal(dnum.FromStr(pr[1])))
+	}
+	// exponent extremes, both signs, against their neighbours and the infinities
+	for _, sign := range []int8{1, -1} {
+		inf := dnumVal(dnum.Inf(sign))
+		for _, e := range []int{-128, -127, -126, 125, 126, 127} {
+			for _, c := range []uint64{1000000000000000, 9999999999999999, 1234500000000000, 9900000000000000} {
+				x := dnumVal(dnum.Raw(sign, c, e))
+				checkPair(x, inf)
+				if e < 127 {
+					checkPair(x, dnumVal(dnum.Raw(sign, c, e+1)))
+				}
+				checkPair(x, dnumVal(dnum.Raw(sign, c+1, e)))
+				checkPair(x, dnumVal(dnum.Raw(-sign, c, e)))
+			}
+		}
+	}
+	for _, str := range []string{"1e126", "9.999999999999999e126", "-1e126", "-9.9e126", "1e-129", "-1e-129", "1e127", "-1e127", "1e-130"} {
+		checkScalar(dnumVal(dnum.FromStr(str)))
 	}
 	for i := 0; i < n; i++ {
 		x := genScalar()
